@@ -200,6 +200,50 @@ func genRange(r *RNG, eco string, p *Pool) string {
 	return s
 }
 
+// longRange: 12 to 40 comparators in one range text, as one AND list or as OR groups of two,
+// bounds from the pool; the text is typically several hundred bytes long.
+func longRange(r *RNG, eco string, p *Pool) string {
+	syn := rangeSyn[eco]
+	if len(p.Strs) == 0 || len(syn.Ops) == 0 || len(syn.And) == 0 {
+		return genRange(r, eco, p)
+	}
+	n := r.Range(12, 40)
+	short := func() string {
+		// prefer short bounds so that the length comes from the number of comparators
+		for k := 0; k < 8; k++ {
+			if b := strings.TrimSpace(r.Pick(p.Strs)); len(b) <= 12 {
+				return b
+			}
+		}
+		return strings.TrimSpace(r.Pick(p.Strs))
+	}
+	var parts []string
+	for i := 0; i < n; i++ {
+		op := r.Pick(syn.Ops)
+		if r.Chance(70) {
+			op = r.Pick([]string{">=", ">"}) // keep the conjunction satisfiable more often
+			ok := false
+			for _, o := range syn.Ops {
+				if o == op {
+					ok = true
+				}
+			}
+			if !ok {
+				op = r.Pick(syn.Ops)
+			}
+		}
+		parts = append(parts, op+short())
+	}
+	if len(syn.Or) > 0 && r.Chance(50) {
+		var groups []string
+		for i := 0; i+1 < len(parts); i += 2 {
+			groups = append(groups, parts[i]+syn.And[0]+parts[i+1])
+		}
+		return strings.Join(groups, syn.Or[0])
+	}
+	return strings.Join(parts, syn.And[0])
+}
+
 // exhaustive short strings over an alphabet
 func shortStrings(alpha []byte, maxLen int) []string {
 	var out []string
